@@ -1271,6 +1271,14 @@ def _value_cases(v, size):
     p = S.topoly(v)
     pb = S._pb_form(p)
     if pb is None:
+        if p.is_int and size <= 1024:
+            # integer-valued term (e.g. a rounded and clamped level index): one case per table position, plus the
+            # out-of-range cases so that the caller can fork on them
+            e = S.poly_z3(p, True)
+            out = [(S.mkbx(e == j), j) for j in range(size)]
+            out.append((S.mkbx(e < 0), -size - 1))
+            out.append((S.mkbx(e >= size), size))
+            return out
         raise NotEncodable("symbolic index that is not an integer combination of bits")
     args_, c0 = pb
     nb = len(args_)
